@@ -141,6 +141,14 @@ def generators(ctx: Ctx) -> None:
         ("generate_local_volatility_process", lambda *a, **k: st.generate_local_volatility_process(*a, sigma_fn=lambda t, s: torch.full_like(s, 0.3), **k), (1.0,), (1.5,), ["real", "nonneg"], [{}]),
     ]
     torch.manual_seed(ctx.seed + 3)
+    # the generators that take an `engine` are also run with the library's own alternative engines (antithetic sampling, Sobol
+    # points through Box-Muller): same contract, for odd and even path counts alike
+    with_engine = []
+    for name, fn, default, custom, signs, regs in table:
+        if name in ("generate_brownian", "generate_geometric_brownian", "generate_merton_jump", "generate_kou_jump"):
+            for ename, eng in (("randn_antithetic", st.randn_antithetic), ("randn_sobol_boxmuller", st.randn_sobol_boxmuller)):
+                with_engine.append((f"{name}[engine={ename}]", (lambda *a, __f=fn, __e=eng, **k: __f(*a, engine=__e, **k)), default, custom, signs, [regs[0]]))
+    table = table + with_engine
     for name, fn, default, custom, signs, regs in table:
         for kw in regs:
             if name == "generate_heston" and "theta" in kw:
